@@ -109,10 +109,13 @@ def missing_end_codes(rng):
 
 
 def repeated_clique(rng):
-    """One clique measured twice - precisely, then very noisily - on public data that already fit well: both count."""
+    """One clique measured twice - precisely, then very noisily - on public data that are an exact 1:10 sample of the private
+    data (uniform weights already fit the precise answers up to their noise): both measurements count."""
     cells = [(i, j) for i in range(3) for j in range(3)]
-    priv = [list(rng.choice(cells)) for _ in range(300)]
-    pub = [list(c) for c in cells] + [list(rng.choice(cells)) for _ in range(3)]
+    cnt = {c: rng.randint(1, 4) for c in cells}
+    priv = [list(c) for c in cells for _ in range(10 * cnt[c])]
+    pub = [list(c) for c in cells for _ in range(cnt[c])]
+    rng.shuffle(pub)
     return {"attrs": ["a", "b"], "sizes": [3, 3], "public": pub, "private": priv,
             "meas": [{"proj": ["a", "b"], "kind": "identity", "noise": 1.0}, {"proj": ["a", "b"], "kind": "identity", "noise": 15.0}],
             "total_mode": "given", "noise_seed": rng.randrange(10 ** 6)}
